@@ -228,7 +228,7 @@ def build(ctx):
     kb.job("cover", "h_cover", kind="cover")
     kb.assumptions += ["ValueType::getSizeOf is an oracle (1, 2, 4, 8 bytes, 0 = unknown), isIntegral a flag; only plain char has an unknown sign",
                        "`nonNegative` (a scan of the value list for `never <= -1`) is an oracle flag: x >= 0 when it is set",
-                       "64-bit unsigned sources above LLONG_MAX are not compared; the variable-following of isSameExpression (followVar) through a narrowing initialisation is NOT covered and is still unsound (`if (x > 300) { unsigned char c = x; if (c == 1)` is reported as oppositeInnerCondition)"]
+                       "64-bit unsigned sources above LLONG_MAX are not compared; the variable-following of isSameExpression (followVar) through a narrowing initialisation is the subject of K62"]
 
     def rnote(inputs, ctx):
         rc, o, cmd = native.compile_run("replay_K55", REPLAY_CPP, [], need_core=False)
